@@ -75,7 +75,7 @@ func (in *interp) stat(s string) {
 // root resolves a name against the root data.
 func (d Data) root(name string) (vals.V, bool) {
 	switch d.Root {
-	case "map":
+	case "map", "hmap", "map[]int":
 		v, ok := d.slot(name)
 		if !ok || v.K == "missing" {
 			return vals.V{}, false
